@@ -544,6 +544,44 @@ u_special(uint64_t idx, void *arg)
         VH_CASE2(1, i);
         expect_integer(ints[i].t, ints[i].v);
     }
+    /* every octet that belongs to no token class (not whitespace, parenthesis, digit, letter, symbol punctuation,
+     * '-' or '#': control characters, quotes, brackets, everything above 7f ...): wherever it stands - alone, behind
+     * "#x", among the digits of either kind of number, inside or next to a symbol, as an element of a list - the text
+     * is not a complete expression: an error status, no tree, nothing leaked */
+    {
+        static const char tokenchars[] = " \t\n\v\f\r()0123456789abcdefghijklmnopqrstuvwxyzABCDEFGHIJKLMNOPQRSTUVWXYZ+%|/_:;.!?$&=*<>~-#";
+        static const char *const forms[] = { "%c", "#x%c", "#x1%c", "#x%c1", "1%c", "12%c3", "a%c", "%ca", "(a %c)", "(a #x%cf)", "(#x1%c)", "(1 a%cb)" };
+        for (unsigned c = 0; c < 256; c++) {
+            if (c != 0 && strchr(tokenchars, (int)c) != NULL)
+                continue;
+            for (size_t fi = 0; fi < sizeof forms / sizeof forms[0]; fi++) {
+                char text[24];
+                /* the octet is put in by hand: it may be NUL */
+                int n0 = snprintf(text, sizeof text, forms[fi], 'Z');
+                size_t n = (size_t)n0;
+                for (size_t i = 0; i < n; i++)
+                    if (text[i] == 'Z')
+                        text[i] = (char)c;
+                for (int variant = (c == 0); variant < 2; variant++) {
+                    vh_arena_reset();
+                    VH_CASE4(7, c, fi, variant);
+                    char *in = vh_arena(n + (variant ? 0 : 1));
+                    memcpy(in, text, n);
+                    if (!variant)
+                        in[n] = 0;
+                    size_t before = __sanitizer_get_current_allocated_bytes();
+                    struct sx_parse_result res = variant ? sx_parse_stringn(in, n) : sx_parse_string(in);
+                    if (res.status == SXS_SUCCESS || res.node != NULL)
+                        vh_fail("accepts-invalid", variant ? "variant=stringn gen=non-token-octets" : "variant=string gen=non-token-octets",
+                                "text=%s (octet %02x in form '%s'): status=%d node=%p", vh_hex(text, n), c, forms[fi], res.status, (void *)res.node);
+                    sx_destroy(&res.node);
+                    if (__sanitizer_get_current_allocated_bytes() != before)
+                        vh_fail("leak", "variant=special", "text=%s", vh_hex(text, n));
+                }
+            }
+            VH_COUNT("special: every octet outside the token classes");
+        }
+    }
     /* every character a symbol may start with and continue with (the reader's tables at the pinned commit: letters
      * and + % | / _ : ; . ! ? $ & = * < > ~ as initials, digits and '-' in addition behind them): alone, doubled,
      * in front of and behind a letter, followed by -9 and by digits; as an expression of its own, as first and as middle element
